@@ -137,7 +137,10 @@ def step (st : St) (toks : List String) : St × String :=
       match rk with
       | none => (st, "bad-op")
       | some rk =>
-      if bs.length = n ∧ 1 ≤ ih ∧ ih ≤ 1000 ∧ (dis = "0" ∨ dis = "1") then ({ ih := ih, blocks := bs, retainK := rk }, "ok") else (st, "bad-op")
+      -- emptyhash=1: the application's app hash is zero-length at every height; the model's hash is the
+      -- committed history, and nothing in the pipeline depends on the hash being non-empty
+      let eh := (kv rest "emptyhash").getD "0"
+      if bs.length = n ∧ 1 ≤ ih ∧ ih ≤ 1000 ∧ (dis = "0" ∨ dis = "1") ∧ (eh = "0" ∨ eh = "1") then ({ ih := ih, blocks := bs, retainK := rk }, "ok") else (st, "bad-op")
     | _, _, _ => (st, "bad-op")
   | "start" :: rest =>
     match (if midOk rest then (kv rest "crash").bind parseCrash else none) with
